@@ -56,7 +56,12 @@ Definition step (s : state) (e : ev) : option state :=
   match e with
   | Spawn p =>
       match nth_error (procs s) p with
-      | Some (mkp true h) => Some (mk (procs s ++ [mkp true h]) (trackers s) (sems s))
+      | Some (mkp true h) =>
+          (* the child inherits the handle -- provided it installs it before it re-imports the parent's main module (which may
+             perform a tracked operation): otherwise that operation starts a private tracker.  The order is read off the source. *)
+          if child_installs_tracker_handle_before_main_module
+          then Some (mk (procs s ++ [mkp true h]) (trackers s) (sems s))
+          else Some (mk (procs s ++ [mkp true (List.length (trackers s))]) (trackers s ++ [mkt true false Masked false []]) (sems s))
       | _ => None end
   | Die p =>
       match nth_error (procs s) p with
